@@ -786,6 +786,23 @@ def r17_14(chk):
                 continue
             w = _wraps_attributes(fnode, cond.id)
             chk.decide(w is not None and w.lineno < c.lineno, "R17.14", k, m.loc(c), f"`{cond.id}['attributes']` wrapped as %...% before the call", f"`{cond.id}` can carry the caller's `attributes` value but reaches the SQL builder unwrapped: this function matches the whole column (=) where get_features_matching matches a fragment (LIKE %..%), e.g. num_matches(attributes='Hello') == 0 while get_features_matching(attributes='Hello') yields the record")
+    # the wrapping decision is the same wherever it is taken (a query and the count for it must not disagree)
+    guards = []
+    for fnode, q in m.qual.items():
+        if not isinstance(fnode, (ast.FunctionDef, ast.AsyncFunctionDef)):
+            continue
+        for iff in walk_no_nested(fnode):
+            if isinstance(iff, ast.If):
+                for st in iff.body:
+                    if isinstance(st, ast.Assign) and isinstance(st.targets[0], ast.Subscript) and isinstance(st.targets[0].slice, ast.Constant) and st.targets[0].slice.value == "attributes" and isinstance(st.value, ast.JoinedStr):
+                        t = norm(iff.test)
+                        mapping = norm(st.targets[0].value)
+                        canon = t.replace(f"{mapping}.get('attributes', None)", "A").replace(f"{mapping}['attributes']", "A").replace("attributes", "A")
+                        guards.append((q, iff, canon))
+    if len(guards) >= 2:
+        ref = guards[0][2]
+        for q, iff, canon in guards:
+            chk.decide(canon == ref, "R17.14", key(m, q, "same wrapping guard as the other entry points"), m.loc(iff), f"guard `{canon}`", f"{q} wraps an attributes condition under `{canon}` but {guards[0][0]} under `{ref}`: for a value containing '%' (URL-escaped text such as %2C in GFF3 column 9) one of them searches for the fragment and the other matches the whole column, so num_matches() and the records returned disagree")
     chk.floor("R17.14", 4, "four SQL-builder call sites")
 
 
